@@ -203,6 +203,120 @@ theorem envStepDone_is_or (t u : Bool) : envStepDone { terminated := t, truncate
 ]
 
 
+CLASS_METHODS = ["time", "perf_counter", "monotonic", "_update_anchor_values", "_update_scaled_anchor_values",
+                 "set_time_scale", "pause", "resume", "state_dict", "load_state_dict", "is_paused", "get_time_scale"]
+
+CLASS_TIE = r'''/-- The generated state record of a model state. -/
+def ofCtl (c : Clock.Ctl) : TC :=
+  { anchor_time := c.t.anchor, anchor_perf_counter := c.p.anchor, anchor_monotonic := c.m.anchor, scaled_anchor_time := c.t.sAnchor, scaled_anchor_perf_counter := c.p.sAnchor, scaled_anchor_monotonic := c.m.sAnchor, time_scale := c.scale, is_paused := c.paused }
+
+def l3 (r : Clock.R3) : List Rat := [r.t, r.p, r.m]
+
+macro "tc_simp" : tactic => `(tactic|
+  simp [time_, perf_counter, monotonic, update_anchor_values, update_scaled_anchor_values, set_time_scale, pause,
+    resume, state_dict, load_state_dict, is_paused, get_time_scale, getS, modifyS, rd, ofCtl, l3,
+    Clock.pause, Clock.resume, Clock.setScale, Clock.stateDict, Clock.loadStateDict, Clock.updScaled,
+    Clock.updAnchors, Clock.Ctl.read, Clock.Chan.value, Clock.Ctl.chan, Clock.Ctl.saved, StateT.run, bind,
+    StateT.bind, get, getThe, MonadStateOf.get, StateT.get, pure, StateT.pure, set, StateT.set, modify, modifyGet,
+    MonadStateOf.modifyGet, StateT.modifyGet, failure, StateT.failure, Alternative.failure, *])
+
+theorem time_is_model (c : Clock.Ctl) (r : Rat) (rest : List Rat) :
+    time_.run (ofCtl c, r :: rest) = some (c.read .time r, (ofCtl c, if c.paused then r :: rest else rest)) := by
+  cases hp : c.paused <;> tc_simp
+
+theorem perf_counter_is_model (c : Clock.Ctl) (r : Rat) (rest : List Rat) :
+    perf_counter.run (ofCtl c, r :: rest) = some (c.read .perf r, (ofCtl c, if c.paused then r :: rest else rest)) := by
+  cases hp : c.paused <;> tc_simp
+
+theorem monotonic_is_model (c : Clock.Ctl) (r : Rat) (rest : List Rat) :
+    monotonic.run (ofCtl c, r :: rest) = some (c.read .mono r, (ofCtl c, if c.paused then r :: rest else rest)) := by
+  cases hp : c.paused <;> tc_simp
+
+theorem pause_is_model (c : Clock.Ctl) (r : Clock.R3) :
+    pause.run (ofCtl c, l3 r) = some ((), (ofCtl (Clock.pause c r), if c.paused then l3 r else [])) := by
+  cases hp : c.paused <;> tc_simp
+
+theorem resume_is_model (c : Clock.Ctl) (r : Clock.R3) :
+    resume.run (ofCtl c, l3 r) = some ((), (ofCtl (Clock.resume c r), if c.paused then [] else l3 r)) := by
+  cases hp : c.paused <;> tc_simp
+
+theorem set_time_scale_is_model (c : Clock.Ctl) (k : Rat) (r1 r2 : Clock.R3) :
+    ((set_time_scale k).run (ofCtl c, if c.paused then l3 r2 else l3 r1 ++ l3 r2)).map (·.2.1) =
+      (match Clock.setScale c k r1 r2 with | .ok c' => some (ofCtl c') | .error _ => none) := by
+  by_cases hk : 0 < k <;> cases hp : c.paused <;> tc_simp
+
+theorem state_dict_is_model (c : Clock.Ctl) (r1 r2 : Clock.R3) :
+    state_dict.run (ofCtl c, if c.paused then l3 r2 else l3 r1 ++ l3 r2) =
+      some (((Clock.stateDict true c r1 r2).2.t, (Clock.stateDict true c r1 r2).2.m, (Clock.stateDict true c r1 r2).2.p),
+            (ofCtl (Clock.stateDict true c r1 r2).1, [])) := by
+  cases hp : c.paused <;> tc_simp
+
+theorem load_state_dict_is_model (c : Clock.Ctl) (d : Clock.Saved) (r : Clock.R3) :
+    (load_state_dict d.t d.m d.p).run (ofCtl c, l3 r) = some ((), (ofCtl (Clock.loadStateDict c d r), [])) := by
+  tc_simp
+
+'''
+
+
+def generate_class(repo: Path) -> str:
+    """`TimeController` as a Lean state machine + the theorems tying every method to `Pamiq.Clock`."""
+    import translate_class as TCm
+    c = TCm.ClassTr(repo, "time.py", "TimeController")
+    return ("import Pamiq.Model.Clock\nnamespace Pamiq.GenTC\nopen Pamiq\n\n" + c.generate(CLASS_METHODS) + "\n"
+            + CLASS_TIE + "\nend Pamiq.GenTC\n")
+
+
+def check_class(res: SuiteResult, repo: Path) -> None:
+    try:
+        text = generate_class(repo)
+    except T.Untranslatable as e:
+        res.evaluations += 1
+        res.hit("static-tie-unavailable:TimeController")
+        res.extra.setdefault("unavailable", []).append(f"TimeController: {e}")
+        return
+    names = re.findall(r"^theorem (\w+)", text, re.M)
+    with tempfile.TemporaryDirectory(prefix="pamiq-verif.") as d:
+        f = Path(d) / "GenTC.lean"
+        f.write_text(text + "\n" + "\n".join(f"#print axioms Pamiq.GenTC.{n}" for n in names) + "\n")
+        proc = subprocess.run(["lake", "env", "lean", str(f)], cwd=LEAN_DIR, capture_output=True, text=True)
+        log = proc.stdout + proc.stderr
+    if proc.returncode == 0:
+        for n in names:
+            res.evaluations += 1
+            res.hit("tied:TimeController." + n.replace("_is_model", ""))
+            res.nontrivial.add("TimeController." + n)
+        for l in log.splitlines():
+            m = re.search(r"depends on axioms: \[(.*)\]", l)
+            if m and not set(a.strip() for a in m.group(1).split(",")) <= {"propext", "Classical.choice", "Quot.sound"}:
+                res.disagreements.append(Disagreement(res.name, "generated tie theorem uses non-standard axioms: " + l, {"gentie": l}))
+        res.extra["class_translation"] = f"TimeController: {len(CLASS_METHODS)} methods translated, {len(names)} tie theorems checked"
+        return
+    # which theorems fail? map error lines to the enclosing theorem
+    lines = text.splitlines()
+    starts = [(k + 1, re.match(r"theorem (\w+)", l).group(1)) for k, l in enumerate(lines) if l.startswith("theorem ")]
+    failing, other = set(), []
+    for l in log.splitlines():
+        m = re.match(r".*GenTC\.lean:(\d+):\d+: error: (.*)", l)
+        if not m:
+            continue
+        ln = int(m.group(1))
+        owner = [n for s0, n in starts if s0 <= ln]
+        if owner:
+            failing.add(owner[-1])
+        else:
+            other.append(m.group(2)[:200])
+    res.evaluations += 1
+    if other:
+        # the generated definitions themselves do not elaborate: the class left the translatable subset
+        res.hit("static-tie-unavailable:TimeController")
+        res.extra.setdefault("unavailable", []).append("TimeController: generated definitions rejected: " + other[0])
+        return
+    res.disagreements.append(Disagreement(
+        res.name, "`time.py:TimeController` as translated from the source is no longer equal to the transition "
+        f"functions of Pamiq.Clock: Lean rejects {sorted(failing)}", {"gentie": {"class": "TimeController",
+                                                                                "failing": sorted(failing)}}))
+
+
 def generate(repo: Path, props: tuple[str, ...] | None = None):
     """-> (lean text, [(lean name, source, digest)], [(function, reason)])."""
     parts, done, skipped, extras = [], [], [], []
@@ -241,6 +355,8 @@ def suite_for(*props: str):
                           rule="pure decision functions of the source translated to Lean from the working tree on "
                                "this run and proved equal to the model's definitions for all inputs (Lean checks the "
                                "generated file on the spot); non-trivial = every function tied")
+        if "C06" in props:
+            check_class(res, Path(REPO))
         text, parts, done, skipped = generate(Path(REPO), props)
         for fn, why in skipped:
             res.evaluations += 1
@@ -273,7 +389,7 @@ def suite_for(*props: str):
                 res.nontrivial.add(name)
                 continue
             err = " | ".join(l for l in log1.splitlines() if "error" in l)[:600]
-            if re.search(r"is not a field of structure|fields missing|[Uu]nknown constant|invalid field", log1):
+            if re.search(r"is not a field of structure|[Ff]ields missing|[Uu]nknown constant|invalid field", log1):
                 # the function reads other things than the tie theorem names (an attribute was renamed,
                 # a read added or dropped): nothing is claimed
                 res.hit("static-tie-unavailable:" + name)
@@ -292,6 +408,11 @@ if __name__ == "__main__":
     setup_repo_path()
     text, parts, done, skipped = generate(Path(REPO))
     if "--write" in sys.argv:
+        out2 = Path(LEAN_DIR) / "Pamiq" / "Gen" / "TimeControllerTie.lean"
+        out2.parent.mkdir(exist_ok=True)
+        out2.write_text("/- GENERATED by harness/gentie.py (translate_class.py) from /repo's time.py (reference copy of "
+                        "what every C06 run re-creates and re-checks; do not edit). -/\n" + generate_class(Path(REPO)))
+        print("written", out2)
         out = Path(LEAN_DIR) / "Pamiq" / "Gen" / "DecisionsTie.lean"
         out.parent.mkdir(exist_ok=True)
         out.write_text("/- GENERATED by harness/gentie.py from /repo's source (reference copy of what every run "
